@@ -505,7 +505,13 @@ class Peer:
         """Reads KEEPALIVE message using async I/O"""
         assert self.proto is not None
         assert self.recv_timer is not None
-        message = await self.proto.read_keepalive()
+        # RFC 4271 8.2.2: the hold timer runs in OPENCONFIRM too, a peer which goes silent after
+        # its OPEN must not keep the session there for ever (no hold timer with a hold time of 0)
+        holdtime = self.proto.negotiated.holdtime
+        try:
+            message = await asyncio.wait_for(self.proto.read_keepalive(), timeout=int(holdtime) or None)
+        except asyncio.TimeoutError:
+            raise Notify(4, 0, 'hold timer expired waiting for the first KEEPALIVE') from None
         self.recv_timer.check_ka_timer(message)
 
     async def _establish(self) -> None:
